@@ -14,10 +14,10 @@ echo "== suite with the change"
 PYTHONPATH=$WT/src env -u EXABGP_VERIF /venv/bin/python -m pytest -q -p no:cacheprovider --timeout=900 --continue-on-collection-errors -x --deselect tests/unit/test_gates_are_wired.py::test_a_clean_tree_exits_zero 2>&1 | tail -2
 echo "== demo with the change (must fail)"
 PYTHONPATH=$WT/src /venv/bin/python -m pytest -q -p no:cacheprovider demo_*.py 2>&1 | tail -2
-git stash -q
+git apply -R $SEED/patch.diff   # (git stash is shared between worktrees: never use it here)
 echo "== demo without the change (must pass)"
 PYTHONPATH=$WT/src /venv/bin/python -m pytest -q -p no:cacheprovider demo_*.py 2>&1 | tail -2
-git stash pop -q
+git apply $SEED/patch.diff
 echo "== our check against the changed tree"
 cd /verif
 for tier in quick; do
